@@ -199,6 +199,22 @@ func C06(rep *ev.Reporter, tier string) {
 			}
 		}
 	}
+	if tier == "thorough" {
+		// the general 2-rule alphabet of C01/C02 (conditions x action lists incl. Retract, Complete, method calls)
+		// under small budgets: the engine model decides the end of every run
+		inner := gen
+		gen = func(emit func(Case)) {
+			inner(emit)
+			for _, mc := range []uint64{0, 1, 2, 3, 5} {
+				general2("quick", mc, func(c Case) {
+					c.ID = fmt.Sprintf("c06/general2/max%d/%s", mc, c.ID)
+					c.Opts.MaxCycle = mc
+					c.Opts.ExtraListeners = 1
+					emit(c)
+				})
+			}
+		}
+	}
 	// zero-listener differential: same program and choices without any listener
 	var plainChecked int64
 	judge := func(c *Case, tr *hx.Trace, w *ref.World) []Verdict {
@@ -208,6 +224,9 @@ func C06(rep *ev.Reporter, tier string) {
 			if b, err := hx.Build(prog); err == nil {
 				o := c.Opts
 				o.Choices = tr.Choices
+				if len(c.Worlds) != 1 {
+					return vs // the differential uses the fixed C06 world
+				}
 				perr, final, pan := hx.RunPlain(b, c06World(), o)
 				atomic.AddInt64(&plainChecked, 1)
 				if pan != nil {
